@@ -3,6 +3,7 @@ package main
 import (
 	"fmt"
 	"go/token"
+	"go/types"
 	"sort"
 	"strings"
 
@@ -111,7 +112,7 @@ func ruleTermsShapeOps(c *Ctx, prop string) {
 		"LogSoftmax": "LogSoftMax(P1[0],AXIS)",
 		"Expand":     "MultidirectionalBroadcast(P1[0],TARGET)",
 	}
-	scope := map[string][]string{"C08": {"Transpose", "Expand"}, "C16": {"Transpose"}, "C09": {"Softmax", "LogSoftmax"}}
+	scope := map[string][]string{"C08": {"Transpose", "Expand"}, "C16": {"Transpose", "Softmax", "LogSoftmax"}, "C09": {"Softmax", "LogSoftmax"}}
 	for _, name := range scope[prop] {
 		oi := c.opByName(name)
 		key := "R7:delegates:" + name
@@ -564,4 +565,240 @@ func runsEveryIteration(b *ssa.BasicBlock) bool {
 		return true
 	}
 	return false
+}
+
+// ---- integer expression normal form --------------------------------------------------------------
+//
+// normInt renders an integer SSA value as a polynomial over atoms in a canonical order, so that
+// formula rules compare meaning (modulo commutativity, associativity and distribution of + - *) and
+// not spelling. Integer division and remainder are opaque atoms over normalised operands.
+type poly map[string]int64 // monomial (sorted atoms joined by '*', "" = constant) -> coefficient
+
+func (c *Ctx) normInt(v ssa.Value, depth int) string {
+	return renderPoly(c.polyOf(v, depth))
+}
+
+func renderPoly(p poly) string {
+	var ks []string
+	for k, co := range p {
+		if co != 0 {
+			ks = append(ks, k)
+		}
+	}
+	sort.Strings(ks)
+	if len(ks) == 0 {
+		return "0"
+	}
+	var sb strings.Builder
+	for i, k := range ks {
+		co := p[k]
+		if i > 0 {
+			sb.WriteString(" ")
+		}
+		switch {
+		case k == "":
+			fmt.Fprintf(&sb, "%+d", co)
+		case co == 1:
+			sb.WriteString("+" + k)
+		case co == -1:
+			sb.WriteString("-" + k)
+		default:
+			fmt.Fprintf(&sb, "%+d*%s", co, k)
+		}
+	}
+	return sb.String()
+}
+
+func (c *Ctx) polyOf(v ssa.Value, depth int) poly {
+	if depth > 12 {
+		return poly{"?deep": 1}
+	}
+	if k, ok := constInt(v); ok {
+		return poly{"": k}
+	}
+	switch x := v.(type) {
+	case *ssa.Convert:
+		if isIntType(x.X.Type()) && isIntType(x.Type()) {
+			return c.polyOf(x.X, depth+1)
+		}
+	case *ssa.BinOp:
+		switch x.Op {
+		case token.ADD, token.SUB:
+			a, b := c.polyOf(x.X, depth+1), c.polyOf(x.Y, depth+1)
+			out := poly{}
+			for k, co := range a {
+				out[k] += co
+			}
+			for k, co := range b {
+				if x.Op == token.ADD {
+					out[k] += co
+				} else {
+					out[k] -= co
+				}
+			}
+			return out
+		case token.MUL:
+			a, b := c.polyOf(x.X, depth+1), c.polyOf(x.Y, depth+1)
+			out := poly{}
+			for ka, ca := range a {
+				for kb, cb := range b {
+					out[mulMono(ka, kb)] += ca * cb
+				}
+			}
+			return out
+		case token.QUO, token.REM:
+			op := "/"
+			if x.Op == token.REM {
+				op = "%"
+			}
+			return poly{"((" + c.normInt(x.X, depth+1) + ")" + op + "(" + c.normInt(x.Y, depth+1) + "))": 1}
+		}
+	}
+	return poly{c.term(v, 0): 1}
+}
+
+func mulMono(a, b string) string {
+	if a == "" {
+		return b
+	}
+	if b == "" {
+		return a
+	}
+	parts := append(strings.Split(a, "*"), strings.Split(b, "*")...)
+	sort.Strings(parts)
+	return strings.Join(parts, "*")
+}
+
+// ---- R11:K8: Conv's extent formulas -----------------------------------------------------------------
+//
+// The three places where Conv computes an extent or coordinate from per-axis quantities are compared,
+// as polynomials over kind-labelled atoms (list[index kind]), with the ONNX formulas:
+//   output extent   out[2+i]  = (X[2+i] - K[i] + pads[i] + pads[i+n]) / strides[i] + 1      (floor)
+//   dilated extent  new[2+i]  = K[2+i]*d[i] - d[i] + 1                                       (= k + (k-1)(d-1))
+//   dilated coord   new[2+i]  = old[2+i] * d[i]
+// The comparison is modulo + - * algebra; integer division is opaque, so floor vs ceil spellings differ.
+func ruleConvFormulas(c *Ctx, prop string) {
+	oi := c.opByName("Conv")
+	if oi == nil {
+		return
+	}
+	type want struct {
+		fn    string
+		exprs []string // acceptable normal forms of the value stored at FULL[SPATIAL+2]
+		doc   string
+	}
+	wants := []want{
+		{"getOutputShape", []string{"+((-.kernelShape[SPATIAL] +.pads[SPATIAL+nSpatial] +.pads[SPATIAL] +Shape(P1)[SPATIAL+2])/(+.strides[SPATIAL])) +1"},
+			"output extent = floor((X - K + pad_begin + pad_end) / stride) + 1"},
+		{"getDilatedKernel", []string{"+.dilations[SPATIAL]*Shape(P1)[SPATIAL+2] +1 -.dilations[SPATIAL]"},
+			"dilated kernel extent = k + (k-1)(d-1)"},
+		{"getNewCoordsAfterDilation", []string{"+.dilations[SPATIAL]*P1[SPATIAL+2]"},
+			"dilated coordinate = old coordinate * dilation"},
+	}
+	for _, w := range wants {
+		key := "R11:K8:formula:" + w.fn
+		var f *ssa.Function
+		for _, g := range c.libFns {
+			if recvNamed(g) == oi.named && g.Parent() == nil && g.Name() == w.fn {
+				f = g
+			}
+		}
+		if f == nil {
+			c.undecided("R11", key, "", "Conv has no method "+w.fn+" any more: where the "+w.doc+" is computed cannot be located")
+			continue
+		}
+		kc := &kindCtx{c: c, recv: f.Params[0], memo: map[ssa.Value]dimKind{}, fn: f,
+			paramKind: map[string]map[int]dimKind{"getNewCoordsAfterDilation": {1: kFull}},
+			retKind:   map[string]dimKind{}}
+		var got []string
+		site := c.pos(f.Pos())
+		for _, b := range f.Blocks {
+			for _, in := range b.Instrs {
+				st, ok := in.(*ssa.Store)
+				if !ok {
+					continue
+				}
+				ia, ok := st.Addr.(*ssa.IndexAddr)
+				if !ok {
+					continue
+				}
+				if _, isArr := ia.X.Type().Underlying().(*types.Pointer); isArr {
+					continue
+				}
+				if kc.indexKind(ia.Index, 0) != iSpatialOff {
+					continue
+				}
+				got = append(got, renderPoly(c.kindPoly(kc, st.Val, 0)))
+				site = c.pos(st.Pos())
+			}
+		}
+		ok := len(got) == 1
+		if ok {
+			ok = false
+			for _, e := range w.exprs {
+				if normSpaces(got[0]) == normSpaces(e) {
+					ok = true
+				}
+			}
+		}
+		c.decide(ok, "R11", key, site, w.doc,
+			fmt.Sprintf("%s does not compute the ONNX %s: the value stored per spatial axis is %s (expected %s, up to + - * algebra)", w.fn, w.doc, strings.Join(got, " | "), strings.Join(w.exprs, " or ")))
+	}
+}
+
+func normSpaces(s string) string {
+	parts := strings.Fields(s)
+	sort.Strings(parts)
+	return strings.Join(parts, " ")
+}
+
+// kindPoly: polyOf with atoms named by list and index *kind* (Shape(P1)[SPATIAL+2], .pads[SPATIAL+nSpatial]).
+func (c *Ctx) kindPoly(kc *kindCtx, v ssa.Value, depth int) poly {
+	if depth > 12 {
+		return poly{"?deep": 1}
+	}
+	if k, ok := constInt(v); ok {
+		return poly{"": k}
+	}
+	switch x := v.(type) {
+	case *ssa.BinOp:
+		switch x.Op {
+		case token.ADD, token.SUB:
+			a, b := c.kindPoly(kc, x.X, depth+1), c.kindPoly(kc, x.Y, depth+1)
+			out := poly{}
+			for k, co := range a {
+				out[k] += co
+			}
+			for k, co := range b {
+				if x.Op == token.ADD {
+					out[k] += co
+				} else {
+					out[k] -= co
+				}
+			}
+			return out
+		case token.MUL:
+			a, b := c.kindPoly(kc, x.X, depth+1), c.kindPoly(kc, x.Y, depth+1)
+			out := poly{}
+			for ka, ca := range a {
+				for kb, cb := range b {
+					out[mulMono(ka, kb)] += ca * cb
+				}
+			}
+			return out
+		case token.QUO, token.REM:
+			op := "/"
+			if x.Op == token.REM {
+				op = "%"
+			}
+			return poly{"((" + renderPoly(c.kindPoly(kc, x.X, depth+1)) + ")" + op + "(" + renderPoly(c.kindPoly(kc, x.Y, depth+1)) + "))": 1}
+		}
+	case *ssa.UnOp:
+		if ia, ok := x.X.(*ssa.IndexAddr); ok && x.Op == token.MUL {
+			if ik := kc.indexKind(ia.Index, 0); ik != iUnknown && ik != iConst {
+				return poly{c.term(ia.X, 0) + "[" + ik.String() + "]": 1}
+			}
+		}
+	}
+	return poly{c.term(v, 0): 1}
 }
